@@ -186,7 +186,11 @@ func cSpecH(u, flen int) int { return u | flen<<4 }
 
 type big16 [16]uint64
 
-// params: 0 tree kind; 1 value type (0 *int, 1 string, 2 []int, 3 struct{}, 4 [16]uint64); 2 number of inserts
+// odd5: a pointer-free value whose size is not a multiple of any word size, so that the field after it in a
+// leaf sits at an offset that depends on that field's own width and alignment
+type odd5 [5]byte
+
+// params: 0 tree kind; 1 value type (0 *int, 1 string, 2 []int, 3 struct{}, 4 [16]uint64, 5 [5]byte); 2 number of inserts
 func hGC() {
 	kind := vpParam(0)
 	switch vpParam(1) {
@@ -205,6 +209,9 @@ func hGC() {
 	case 4:
 		gcByKind(kind, gcVal[big16]{mk: func() big16 { var x big16; x[0], x[15] = vpU64(), vpU64(); return x }, eq: func(a, b big16) bool { return a == b },
 			snap: func(x big16) uint64 { return x[0] ^ x[15] }})
+	case 5:
+		gcByKind(kind, gcVal[odd5]{mk: func() odd5 { var x odd5; x[0], x[4] = vpU8(), vpU8(); return x }, eq: func(a, b odd5) bool { return a == b },
+			snap: func(x odd5) uint64 { return uint64(x[0])<<8 | uint64(x[4]) }})
 	default:
 		vpFail("unknown value type for hGC")
 	}
